@@ -11,7 +11,7 @@
    (C07, C06).  Non-ASCII software names are outside the model (stated hypothesis `ascii_text`). *)
 From Coq Require Import ZArith String List Bool.
 Require Import Rig.Generated.GenProbe Rig.Model.Base Rig.Model.Probe Rig.Spec.Probe
-               Rig.Proofs.Probe Rig.Proofs.ProbeMachine.
+               Rig.Proofs.Probe Rig.Proofs.ProbeMachine Rig.Proofs.ProbeLayout.
 Import ListNotations.
 Open Scope Z_scope.
 
@@ -94,18 +94,7 @@ Theorem C14_probe_end_to_end :
     0 <= w < 256 -> 0 <= h < 256 -> routes_valid route -> reads_dims rd w h -> reads_p2p rd route ->
     answers_valid answers -> (exists c, has_route route w h c) ->
     system_info rd (info_of_machine answers) = Ok si ->
-    let m := build_machine si in
-    let cons := build_core_constraints si in
-    (forall c, pm_has_chip m c = true <-> (has_route route w h c /\ exists cs, answers c = Some cs)) /\
-    (forall c cs, has_route route w h c -> answers c = Some cs ->
-       si_get si c = Some (truth_info cs) /\
-       pm_get m c = Ok (cs_cores cs, cs_sdram cs, cs_sram cs) /\
-       (forall l, In l [0; 1; 2; 3; 4; 5] -> (pm_has_link m c l = true <-> Z.testbit (cs_linkmask cs) l = true)) /\
-       cassoc c (target_lengths si) = Some (cs_rtr cs) /\
-       (forall r, In r (ranges_on c cons) -> 0 <= fst r < snd r) /\
-       (forall p, (cover_count p (ranges_on c cons) <= 1)%nat) /\
-       (forall p, (exists r, In r (ranges_on c cons) /\ fst r <= p < snd r) <-> machine_busy cs p)) /\
-    (forall k, In k cons -> snd k = None \/ exists c, snd k = Some c /\ pm_has_chip m c = true).
+    model_matches_machine route answers w h si.
 Proof. exact probe_end_to_end. Qed.
 
 (* IOBUF: along an (acyclic, hence finite) chain of blocks the walk returns the concatenation of the
@@ -177,6 +166,136 @@ Theorem C14_sver_semver_roundtrip :
     decode_sver (encode_sver_semver x y pcpu vcpu buf date name d1 d2 d3 labels pad) =
     Ok (mkCO (x, y) pcpu vcpu (dec_value d1, dec_value d2, dec_value d3) buf date name labels).
 Proof. exact sver_semver_roundtrip. Qed.
+
+(* ---- the controller's `structs` argument: ANY struct layout ------------------------------------- *)
+(* The probing functions resolve every field they read through the controller's own struct table.  With
+   the layout as a parameter of the model ([p2p_table_L] ... ; the functions above are the instances at the
+   packaged boot/sark.struct), whatever places the layout gives to sv.p2p_dims / vcpu_base / iobuf_size and
+   to the fields of vcpu_t, probing reads exactly those bytes: a controller created for a machine laid out
+   otherwise describes THAT machine, independently of any other controller (the result is a function of the
+   controller's layout and of the machine it talks to, nothing else). *)
+Theorem C14_packaged_layout_is_an_instance :
+  (forall rd, p2p_table_L packaged_layout rd = p2p_table rd) /\
+  (forall rd info, system_info_L packaged_layout rd info = system_info rd info) /\
+  (forall fuel rd p, get_iobuf_bytes_L packaged_layout fuel rd p = get_iobuf_bytes fuel rd p) /\
+  (forall rd p, processor_status_L packaged_layout rd p = processor_status rd p) /\
+  vcpu_fields_at packaged_vcpu_offsets = vcpu_fields /\
+  (forall d, status_truth_at packaged_vcpu_offsets d = status_truth d).
+Proof.
+  exact (conj p2p_table_packaged (conj system_info_packaged (conj get_iobuf_bytes_packaged
+        (conj processor_status_packaged (conj packaged_vcpu_layout status_truth_packaged))))).
+Qed.
+
+Theorem C14_read_field_any_layout :
+  forall rd base f v, field_holds rd base f v -> read_int_field rd base f = Ok v.
+Proof. exact read_int_field_any. Qed.
+
+Theorem C14_p2p_roundtrip_any_layout :
+  forall L rd route w h,
+    0 <= w < 256 -> 0 <= h < 256 -> routes_valid route ->
+    field_holds rd (l_sv_base L) (l_p2p_dims L) (256 * w + h) -> reads_p2p rd route ->
+    p2p_table_L L rd = Ok (p2p_truth route w h).
+Proof. exact p2p_roundtrip_L. Qed.
+
+Theorem C14_system_info_exact_any_layout :
+  forall L rd route answers w h,
+    0 <= w < 256 -> 0 <= h < 256 -> routes_valid route ->
+    field_holds rd (l_sv_base L) (l_p2p_dims L) (256 * w + h) -> reads_p2p rd route ->
+    answers_valid answers -> (exists c, has_route route w h c) ->
+    exists si, system_info_L L rd (info_of_machine answers) = Ok si /\
+      si_chips si = live_chips route answers w h /\
+      (forall c, has_route route w h c -> fst c < si_width si /\ snd c < si_height si) /\
+      (exists c, has_route route w h c /\ si_width si = fst c + 1) /\
+      (exists c, has_route route w h c /\ si_height si = snd c + 1).
+Proof. exact system_info_exact_L. Qed.
+
+(* the deprecated one-call entry point get_machine = build_machine (get_system_info), under any layout *)
+Theorem C14_get_machine_exact :
+  forall L rd route answers w h,
+    0 <= w < 256 -> 0 <= h < 256 -> routes_valid route ->
+    field_holds rd (l_sv_base L) (l_p2p_dims L) (256 * w + h) -> reads_p2p rd route ->
+    answers_valid answers -> (exists c, has_route route w h c) ->
+    exists si, system_info_L L rd (info_of_machine answers) = Ok si /\
+               get_machine_L L rd (info_of_machine answers) = Ok (build_machine si) /\
+               model_matches_machine route answers w h si.
+Proof. exact get_machine_exact_L. Qed.
+
+Theorem C14_status_slicing_any_layout :
+  forall L (rd : reader) base p d offs,
+    l_vcpu_fields L = vcpu_fields_at offs ->
+    status_block_valid_at offs (l_vcpu_size L) d ->
+    read_sv_int_L L rd (l_vcpu_base L) = Ok base ->
+    rd (base + l_vcpu_size L * p) (l_vcpu_size L) = d ->
+    processor_status_L L rd p = Ok (status_truth_at offs d).
+Proof. exact status_slicing_L. Qed.
+
+Theorem C14_iobuf_bytes_chain_any_layout :
+  forall L rd p size vb o a blocks fuel,
+    field_holds rd (l_sv_base L) (l_iobuf_size L) size ->
+    field_holds rd (l_sv_base L) (l_vcpu_base L) vb ->
+    sassoc "iobuf" (l_vcpu_fields L) = Some ("I"%string, o, 1) ->
+    is_word a -> rd (vb + l_vcpu_size L * p + o) 4 = le_encode 4 a ->
+    chain_at rd size a blocks -> (length blocks < fuel)%nat ->
+    get_iobuf_bytes_L L fuel rd p = Ok (chain_text blocks).
+Proof. exact iobuf_bytes_chain_L. Qed.
+
+(* ---- the controller as an object with a history -------------------------------------------------- *)
+(* What a controller keeps between calls is the SCP buffer size learnt from the first sver.  Whatever it
+   has done before, each call describes the machine state current at that call: a history of calls over
+   successive machine states returns, call by call, what a fresh controller would return. *)
+Theorem C14_controller_history_independent :
+  forall L sv ci calls st,
+    decode_sver sv = Ok ci -> (st = None \/ exists n, st = Some n) ->
+    ctl_run L st sv calls = map (fun c => system_info_L L (fst c) (snd c)) calls.
+Proof. exact ctl_history_independent. Qed.
+
+Theorem C14_controller_status_history_free :
+  forall L st st' sv rd p,
+    ctl_ensure_length st sv = Ok st' ->
+    ctl_processor_status L st sv rd p = bind (processor_status_L L rd p) (fun r => Ok (r, st')).
+Proof. exact ctl_processor_status_history_free. Qed.
+
+Theorem C14_controller_iobuf_history_free :
+  forall L st st' sv fuel rd p,
+    ctl_ensure_length st sv = Ok st' ->
+    ctl_iobuf_bytes L st sv fuel rd p = bind (get_iobuf_bytes_L L fuel rd p) (fun r => Ok (r, st')).
+Proof. exact ctl_iobuf_history_free. Qed.
+
+(* ---- error clauses ------------------------------------------------------------------------------- *)
+Theorem C14_no_route_is_an_error :
+  forall info route w h,
+    (forall c, 0 <= fst c < w -> 0 <= snd c < h -> route c = NO_ROUTE) ->
+    system_info_of_table info (p2p_truth route w h) = OtherError.
+Proof. exact system_info_no_route. Qed.
+
+Theorem C14_short_info_payload_is_an_error :
+  forall r, (length (r_data r) < 24)%nat -> decode_info r = OtherError.
+Proof. exact decode_info_short. Qed.
+
+(* ---- views --------------------------------------------------------------------------------------- *)
+Theorem C14_working_links_exact :
+  forall cs, cs_valid cs ->
+    working_links (encode_info cs) = Ok (filter (fun l => Z.testbit (cs_linkmask cs) l) [0; 1; 2; 3; 4; 5]).
+Proof. exact working_links_exact. Qed.
+
+Theorem C14_ip_address_exact :
+  forall cs, cs_valid cs ->
+    ip_address (encode_info cs) = Ok (if cs_eth_up cs then Some (ip_text (cs_ip cs)) else None).
+Proof. exact ip_address_exact. Qed.
+
+Theorem C14_si_links_exact :
+  forall si c l, NoDup (map fst (si_chips si)) ->
+    (In (c, l) (si_links si) <-> exists ci, si_get si c = Some ci /\ In l (ci_links ci)).
+Proof. exact si_links_exact. Qed.
+
+Theorem C14_si_contains_exact :
+  forall si c p l,
+    (si_has_core si c p = true <-> exists ci, si_get si c = Some ci /\ 0 <= p < ci_cores ci) /\
+    (si_has_link si c l = true <-> exists ci, si_get si c = Some ci /\ In l (ci_links ci)).
+Proof. exact si_contains_exact. Qed.
+
+Example C14_moved_layout_satisfiable : status_block_valid_at ex_offsets (l_vcpu_size ex_layout) ex_block_L.
+Proof. exact ex_block_L_valid. Qed.
 
 (* Non-vacuity. *)
 Example C14_sver_semver_satisfiable :
